@@ -133,6 +133,34 @@ func c14Strings(alphabet []string, maxLen int) []string {
 
 func c14Check(cs c14Case) (kind, detail string) {
 	switch cs.Format {
+	case "list":
+		// one operator call decodes every element of a list (one decoder object, initialised once per element)
+		var items []string
+		json.Unmarshal([]byte(cs.Data), &items)
+		doc := val.SeqV()
+		for _, it := range items {
+			doc.Vals = append(doc.Vals, val.StrV(it))
+		}
+		e := map[string]string{"base64": "[.[] | @base64 | @base64d]", "uri": "[.[] | @uri | @urid]", "json": "[.[] | to_json | from_json]", "yaml": "[.[] | to_yaml | from_yaml]", "base64-map": "map(@base64) | map(@base64d)"}[cs.Dir]
+		parsed, perr, ppan := impl.Parse(e)
+		if perr != nil || ppan != nil {
+			return "skip", ""
+		}
+		res, err, pan := impl.Eval(parsed, impl.Doc(doc))
+		if pan != nil {
+			return "panic", fmt.Sprint(pan)
+		}
+		if err != nil {
+			return "error", fmt.Sprintf("%s on %s: %v", e, doc.JSON(), err)
+		}
+		if len(res) != 1 || impl.ToV(res[0]).String() != doc.String() {
+			got := "nothing"
+			if len(res) > 0 {
+				got = impl.ToV(res[0]).String()
+			}
+			return "value", fmt.Sprintf("%s on %s gives %s", e, doc.JSON(), got)
+		}
+		return "", ""
 	case "base64":
 		s := cs.Data
 		enc, _, err := c14EvalStr("@base64", strNode(s))
@@ -511,6 +539,25 @@ func c14Run(c *fw.Ctx) error {
 			run(c14Case{Format: "uri", Dir: "all", Data: s}, int64(len(s))*1e6+int64(i), c14ByteClass(s))
 		}
 	}
+	// the decode operators over lists (pairs and triples from a pool that includes the empty string)
+	lpool := []string{"", "a", "ab", "abc", "a b", "é"}
+	for _, x := range lpool {
+		for _, y := range lpool {
+			for zi := -1; zi < len(lpool); zi++ {
+				l := []string{x, y}
+				if zi >= 0 {
+					l = append(l, lpool[zi])
+				}
+				b, _ := json.Marshal(l)
+				for _, op := range []string{"base64", "uri", "json", "yaml", "base64-map"} {
+					if op == "yaml" && (x == "" || y == "" || (zi >= 0 && lpool[zi] == "")) {
+						continue // `"" | to_yaml | from_yaml` is a listed finding of its own (root scalars are printed unwrapped)
+					}
+					run(c14Case{Format: "list", Dir: op, Data: string(b)}, 2e6+int64(len(l)), "list-with-empty:"+fmt.Sprint(x == "" || y == "" || (zi >= 0 && lpool[zi] == "")))
+				}
+			}
+		}
+	}
 	if c.Thorough() {
 		// every 3-byte string: the whole input space of one base64 block (generated on the fly, 2^24 cases)
 		for a := 0; a < 256; a++ {
@@ -618,7 +665,7 @@ func c14Run(c *fw.Ctx) error {
 			return err
 		}
 	}
-	c.Res.Bound = "base64/uri: every byte string of length <= 2 (quick: one third of the pairs) and length 3 over a 24-byte core (thorough: every 3-byte string, 2^24); properties: keys x values over all strings of length <= 2 over 13 characters (separators, comment signs, backslash, blanks, line feed, non-ASCII), 3 directions; csv/tsv: fields of length <= 2 over 10 characters in 4 table shapes, 3 separators; lua: strings of length <= 2 over 13 atoms, 12 hazardous keys, U(3), quoted and unquoted keys; xml: element trees with attributes/text/repeated children over hazardous text; toml: mini-grammar documents; to_json/from_json and to_yaml/from_yaml on U(3)"
+	c.Res.Bound = "base64/uri: every byte string of length <= 2 (quick: one third of the pairs) and length 3 over a 24-byte core (thorough: every 3-byte string, 2^24); the decode operators over every pair and triple of a 6-string pool incl. the empty string in one call; xml also with two non-default attribute-prefix/content-name settings; properties: keys x values over all strings of length <= 2 over 13 characters (separators, comment signs, backslash, blanks, line feed, non-ASCII), 3 directions; csv/tsv: fields of length <= 2 over 10 characters in 4 table shapes, 3 separators; lua: strings of length <= 2 over 13 atoms, 12 hazardous keys, U(3), quoted and unquoted keys; xml: element trees with attributes/text/repeated children over hazardous text; toml: mini-grammar documents; to_json/from_json and to_yaml/from_yaml on U(3)"
 	return nil
 }
 
@@ -742,52 +789,62 @@ func c14Batch(c *fw.Ctx) error {
 	// XML encode: element trees -> yq document -> XML text (yq) -> python reads it back -> canonical JSON compare
 	texts := []string{"t", "a b", "<", "&", "\"", "'", ">", "é", "]]>", "a<b&c", "1", "&amp;", "<!--", "x\ny"}
 	id := 0
-	for _, t := range texts {
-		for _, attr := range []string{"", "v", "<&\"'"} {
-			for _, rep := range []int{1, 2, 3} {
-				// ground truth tree: <r a=attr><c>t</c>(<c>t2</c>)<d/></r>; rep 3 (decode only): the repeated element comes back after a different sibling
-				doc := val.MapV()
-				r := val.MapV()
-				if attr != "" {
-					r.Keys = append(r.Keys, val.StrV("+@a"))
-					r.Vals = append(r.Vals, val.StrV(attr))
-				}
-				if rep == 1 {
-					r.Keys = append(r.Keys, val.StrV("c"))
-					r.Vals = append(r.Vals, val.StrV(t))
-				} else {
-					r.Keys = append(r.Keys, val.StrV("c"))
-					r.Vals = append(r.Vals, val.SeqV(val.StrV(t), val.StrV("second")))
-				}
-				r.Keys = append(r.Keys, val.StrV("d"))
-				r.Vals = append(r.Vals, val.MapV(val.StrV("+@k"), val.StrV(t), val.StrV("+content"), val.StrV("inner")))
-				doc.Keys = append(doc.Keys, val.StrV("r"))
-				doc.Vals = append(doc.Vals, r)
-				for _, indent := range []int{2, 0} {
-					if rep == 3 {
-						break
+	// preference variants: the default names, yq's former defaults (the content name starts with the attribute prefix), one more
+	prefVariants := [][2]string{{"+@", "+content"}, {"+", "+content"}, {"_", "_text"}}
+	for _, pv := range prefVariants {
+		for _, t := range texts {
+			if pv[0] != "+@" && t != "t" && t != "a<b&c" && t != "\"" {
+				continue
+			}
+			for _, attr := range []string{"", "v", "<&\"'"} {
+				for _, rep := range []int{1, 2, 3} {
+					// ground truth tree: <r a=attr><c>t</c>(<c>t2</c>)<d/></r>; rep 3 (decode only): the repeated element comes back after a different sibling
+					doc := val.MapV()
+					r := val.MapV()
+					if attr != "" {
+						r.Keys = append(r.Keys, val.StrV(pv[0]+"a"))
+						r.Vals = append(r.Vals, val.StrV(attr))
 					}
-					p := yqlib.NewDefaultXmlPreferences()
-					p.Indent = indent
-					out, eerr, pan := impl.Print([]*yqlib.CandidateNode{vNode(doc)}, yqlib.NewXMLEncoder(p))
-					id++
-					if pan != nil || eerr != nil {
-						c.Violation("xml/encode/error", int64(id), c14Case{Format: "xml", Dir: "encode", Data: doc.JSON()}, fmt.Sprintf("%v %v", eerr, pan))
-						continue
+					if rep == 1 {
+						r.Keys = append(r.Keys, val.StrV("c"))
+						r.Vals = append(r.Vals, val.StrV(t))
+					} else {
+						r.Keys = append(r.Keys, val.StrV("c"))
+						r.Vals = append(r.Vals, val.SeqV(val.StrV(t), val.StrV("second")))
 					}
-					// expected etree-json: [tag, attrs, text, children]
-					items = append(items, item{Kind: "xml", Text: out, Want: c14XMLWant(attr, t, rep), ID: id, Src: doc.JSON()})
-				}
-				// XML decode: own writer -> yq decoder -> compare with the expected mapping
-				xmlText := c14XMLWrite(attr, t, rep)
-				n, derr, dpan := c14Decode(yqlib.NewXMLDecoder(yqlib.NewDefaultXmlPreferences()), xmlText)
-				c.Eval(1)
-				c.Validated(1)
-				c.Nontrivial("xml-decode" + xmlText)
-				if dpan != nil || derr != nil {
-					c.Violation("xml/decode/error/text:"+c14CharClass(t), int64(id), c14Case{Format: "xml", Dir: "decode", Data: xmlText}, fmt.Sprintf("well-formed XML %q rejected: %v %v", xmlText, derr, dpan))
-				} else if got, want := c14LuaNormal(textV(n)).String(), c14LuaNormal(c14XMLDecoded(doc, t)).String(); got != want {
-					c.Violation("xml/decode/value/text:"+c14CharClass(t), int64(id), c14Case{Format: "xml", Dir: "decode", Data: xmlText}, fmt.Sprintf("XML %q decodes to %s, expected %s", xmlText, got, want))
+					r.Keys = append(r.Keys, val.StrV("d"))
+					r.Vals = append(r.Vals, val.MapV(val.StrV(pv[0]+"k"), val.StrV(t), val.StrV(pv[1]), val.StrV("inner")))
+					doc.Keys = append(doc.Keys, val.StrV("r"))
+					doc.Vals = append(doc.Vals, r)
+					for _, indent := range []int{2, 0} {
+						if rep == 3 {
+							break
+						}
+						p := yqlib.NewDefaultXmlPreferences()
+						p.Indent = indent
+						p.AttributePrefix, p.ContentName = pv[0], pv[1]
+						out, eerr, pan := impl.Print([]*yqlib.CandidateNode{vNode(doc)}, yqlib.NewXMLEncoder(p))
+						id++
+						if pan != nil || eerr != nil {
+							c.Violation("xml/encode/error", int64(id), c14Case{Format: "xml", Dir: "encode", Data: doc.JSON()}, fmt.Sprintf("%v %v", eerr, pan))
+							continue
+						}
+						// expected etree-json: [tag, attrs, text, children]
+						items = append(items, item{Kind: "xml", Text: out, Want: c14XMLWant(attr, t, rep), ID: id, Src: doc.JSON()})
+					}
+					// XML decode: own writer -> yq decoder -> compare with the expected mapping
+					xmlText := c14XMLWrite(attr, t, rep)
+					dp := yqlib.NewDefaultXmlPreferences()
+					dp.AttributePrefix, dp.ContentName = pv[0], pv[1]
+					n, derr, dpan := c14Decode(yqlib.NewXMLDecoder(dp), xmlText)
+					c.Eval(1)
+					c.Validated(1)
+					c.Nontrivial("xml-decode" + xmlText)
+					if dpan != nil || derr != nil {
+						c.Violation("xml/decode/error/text:"+c14CharClass(t), int64(id), c14Case{Format: "xml", Dir: "decode", Data: xmlText}, fmt.Sprintf("well-formed XML %q rejected: %v %v", xmlText, derr, dpan))
+					} else if got, want := c14LuaNormal(textV(n)).String(), c14LuaNormal(c14XMLDecoded(doc, t)).String(); got != want {
+						c.Violation("xml/decode/value/text:"+c14CharClass(t), int64(id), c14Case{Format: "xml", Dir: "decode", Data: xmlText}, fmt.Sprintf("XML %q decodes to %s, expected %s", xmlText, got, want))
+					}
 				}
 			}
 		}
